@@ -223,6 +223,44 @@ def execute(req, env: Env):
             if args == "numba":
                 return _digest(np, float(e.get_function("numba")(*[0.3 + 0.2 * k for k in range(len(e.vars))])))
             return _digest(np, np.asarray(e(*args)))
+        if kind == "solve_tr":
+            # a simulation observed through an interrupt object / tracker object that earlier simulations of the history
+            # have used already (users keep one `tracker=[...]` list or one interrupt object for a series of runs)
+            from pde import CallbackTracker, DiffusionPDE
+            from pde.trackers import MaterialConservationTracker, SteadyStateTracker
+            from pde.trackers import interrupts as I
+
+            _, obj, share, span = req
+            if not hasattr(env, "shared"):
+                env.shared, env.fired = {}, []
+            env.fired.clear()
+            fired = env.fired
+            mk_int = {"fixed": lambda: I.FixedInterrupts([0.25, 0.5, 0.75, 1.25]), "const": lambda: I.ConstantInterrupts(0.25),
+                      "const_ts": lambda: I.ConstantInterrupts(0.25, t_start=0.2), "geo": lambda: I.GeometricInterrupts(0.1, 2),
+                      "log": lambda: I.LogarithmicInterrupts(0.1, 2), "list": lambda: [0.25, 0.5, 0.75, 1.25], "num": lambda: 0.25,
+                      "steady": lambda: 0.1, "matcons": lambda: 0.1}[obj]
+
+            def mk_tracker(ints):
+                if obj == "steady":
+                    return SteadyStateTracker(interrupts=ints, atol=0.3, rtol=0.0)
+                if obj == "matcons":
+                    return MaterialConservationTracker(interrupts=ints, atol=2.0, rtol=0.0)
+                return CallbackTracker(lambda st, t: fired.append(float(t)), interrupts=ints)
+
+            if share == "interrupt":
+                if ("int", obj) not in env.shared:
+                    env.shared["int", obj] = mk_int()
+                tr = mk_tracker(env.shared["int", obj])
+            else:
+                if ("trk", obj) not in env.shared:
+                    env.shared["trk", obj] = mk_tracker(mk_int())
+                tr = env.shared["trk", obj]
+            watch = CallbackTracker(lambda st, t: None, interrupts=100.0)  # keeps the tracker list a list of two
+            eq = DiffusionPDE(diffusivity=1.0, bc=BCS["v0"])
+            t_range = (0, 1) if span == 0 else (0.5, 1.5)
+            res, info = eq.solve(env.field("A"), t_range=t_range, dt=0.05, backend="numpy", solver="euler", tracker=[tr, watch],
+                                 ret_info=True)
+            return _digest(np, [np.array(fired), res.data, np.array([info["controller"]["t_final"]])])
         # ---------------- stateful family: interpolation vs collections ----------------
         if kind == "interp":
             _, name, point, opt = req
@@ -386,6 +424,12 @@ def alphabet(family, tier):
             reqs.append(["expr", eid, "deriv"])
             reqs.append(["expr", eid, "numba"])
             reqs.append(["expr", eid + "#2", [1.5 - 0.25 * k for k in range(n)]])
+    elif family == "reuse":
+        # one interrupt object / one tracker object used by several simulations of the history
+        for obj in ("fixed", "const", "const_ts", "geo", "log", "list", "num", "steady", "matcons"):
+            for share in ("interrupt", "tracker"):
+                for span in (0, 1):
+                    reqs.append(["solve_tr", obj, share, span])
     elif family == "idreuse":
         # kept apart from all other requests: a dead factory's id may be reused by ANY later function object
         for k in (2, 3):
@@ -402,7 +446,7 @@ def alphabet(family, tier):
     return reqs
 
 
-FAMILIES = ["line", "radial", "plane", "pde", "expr", "interp", "idreuse"]
+FAMILIES = ["line", "radial", "plane", "pde", "expr", "interp", "idreuse", "reuse"]
 
 
 # ----------------------------------------------------------------------------------------------
@@ -514,7 +558,8 @@ def check_history(hist):
             what = "result differs from the same request in a fresh interpreter"
             fam = {"mkop": "operator cache", "field": "operator cache", "nobc": "operator cache", "gridprop": "grid cache",
                    "rate": "pde cache", "rhs": "pde cache", "solve": "pde cache", "expr": "expression cache",
-                   "opinfo": "operator cache", "opinfo_gc": "operator cache (id of a dead factory reused)"}[req[0]]
+                   "opinfo": "operator cache", "opinfo_gc": "operator cache (id of a dead factory reused)",
+                   "solve_tr": f"state left in a reused {req[2]} object ({req[1]})"}[req[0]]
         if got != ref:
             prev = [h for h in hist[:i]]
             viol.append({
